@@ -25,6 +25,8 @@ fn one_shot_and_reuse(ctx: &Ctx) -> Stats {
                 st.nontrivial_hash(fw::mix(fw::fnv(bytes), part as u64));
             }
             let mut bad: Option<String> = None;
+            let dsc = crate::guard::Desc { what: "Encoding::decode* (one-shot)", encoding: enc.name(), data: bytes.as_ptr(), len: bytes.len() };
+            let _g = crate::guard::enter(&dsc);
             let r = fw::catch(|| {
                 let (a, _, _) = enc.decode(bytes);
                 let (b, _) = enc.decode_with_bom_removal(bytes);
